@@ -120,6 +120,21 @@ def generate(ctx):
                'perm': rng.randint(1, 1 << 30)}
     yield {'src': 'real', 'model': 'simple', 'comp': 'NoSuchComponent', 'edits': [], 'entry': 'main', 'perm': None}
     yield {'src': 'real', 'model': 'interp', 'comp': 'NoSuchComponent', 'edits': [], 'entry': 'main', 'perm': None}
+    # ---- targeted: classes without any declarable attribute (no attribute, only current_state, only derived or
+    #      unsupported ones) and attributes typed by instance reference / structured / subtype-less data types
+    for j in range(ctx.pick(24, 200)):
+        r = rng.fork('targeted', j)
+        dd = E.gen_diagram(r, max_classes=4, special_names=(j % 4 == 0), ensure_bare=True, ensure_unsupported=True)
+        comps = [k['name'] for k in dd['containers'] if k['comp']]
+        if not comps:
+            continue
+        # a component that really holds a bare class, if there is one
+        def bare(c):
+            return not any(a['kind'][0] != 'derived' and E.py_base_type_name(dd, E.py_attr_dt(dd, a) or 0) for a in c['attrs'])
+        good = [k['name'] for k in dd['containers'] if k['comp'] and
+                any(bare(c) and E.py_contained(dd, k['id'], c['parent']) for c in dd['classes'])]
+        yield {'src': 'synth', 'diagram': dd, 'comp': r.choice(good or comps), 'edits': _xscript(r, dd, r.randint(0, 2)),
+               'entry': 'build', 'perm': r.randint(1, 1 << 30)}
     for edits in _real_sites(d):
         i += 1
         yield {'src': 'real', 'model': 'simple', 'comp': 'Comp', 'edits': edits, 'entry': 'build',
@@ -241,7 +256,15 @@ def run_impl(case):
                 if os.path.exists(out):
                     fail('output-on-error', 'main wrote an output file although the component does not exist')
 
-    if obs[0] == 'ok':
+    if obs[0] == 'ok' and want0 is not None:
+        for tree, dd, when in ((obs[1], d0, ''), (obs[2], d1, 'after the edits ')):
+            for sig, what in _independent(tree, dd, comp):
+                fail(sig, when + what)
+            if fails:
+                break
+    if fails:
+        pass
+    elif obs[0] == 'ok':
         if want0 is None:
             fail('unknown-component-accepted', 'component %r does not exist but a schema was written' % (name,))
         elif obs[1] != want0:
@@ -256,6 +279,29 @@ def run_impl(case):
     nontrivial = bool(has_attr and (not edits or want0 != want1))
     key = hashlib.sha1(json.dumps(case, sort_keys=True, default=str).encode()).hexdigest()
     return {'obs': obs, 'd_fail': fails[:3], 'nontrivial': nontrivial, 'key': key, 'stats': stats}
+
+
+def _independent(tree, d, comp):
+    """two oracles that need no type mapping at all: (1) exactly one element per class contained in the component,
+    also for a class without any declarable attribute; (2) every declared attribute is typed by the name of a core
+    type 1..5 or an enumeration of the model (never by an instance reference, structured, user or void type)"""
+    try:
+        _, _, classes = _decls(tree)
+    except Exception:
+        return
+    want = sorted(c['kl'] for c in d['classes'] if E.py_contained(d, comp, c['parent']))
+    got = sorted(k for k in classes if k is not None)
+    elems = [cl for c in tree[2] if c[0] == 'xs:element' for ct in c[2] for sq in ct[2] for cl in sq[2]]
+    if len(elems) != len(want) or got != sorted(set(want)):
+        yield ('element-per-class', 'the schema declares the class elements %s, the component contains the classes %s'
+               % (json.dumps(sorted(dict(map(tuple, e[1])).get('name') for e in elems)), json.dumps(want)))
+    usable = {t['name'] for t in d['dts'] if (t['kind'][0] == 'core' and 1 <= t['kind'][1] <= 5) or t['kind'][0] == 'enum'}
+    for k in sorted(classes, key=repr):
+        for name, ty in classes[k]:
+            if ty not in usable:
+                yield ('attribute-type-not-a-base-type', 'attribute %s.%s is declared with type %r, which is not the name of '
+                       'a core or enumeration data type of the model (usable: %s)' % (k, name, ty, json.dumps(sorted(usable))))
+                return
 
 
 def _decls(t):
